@@ -448,7 +448,7 @@ fn main() {
     relation_d(ctx, &mut stats, if quick { 2 } else { 3 });
 
     if stats.get("a_pairs") == 0 || stats.get("b_routings") == 0 || stats.get("c_interleavings") == 0 || stats.set_len("a_outcomes") < 10 || stats.set_len("d_outcomes") < 3 {
-        machinery("vacuous exploration in C18");
+        vacuous("vacuous exploration in C18");
     }
     stats.add("states", stats.set_len("a_outcomes") as u64 + stats.set_len("d_outcomes") as u64);
     let mut cov = stats.to_json();
